@@ -54,6 +54,8 @@ class Gen:
             return "NULL"
         if k == "int":
             c = t["con"]
+            if c["c"] == "semi":
+                return "INTEGER (%d..MAX)" % c["lb"]
             return "INTEGER" if c["c"] == "none" else "INTEGER (%d..%s%s)" % (c["lb"], c.get("ubText", c["ub"]), ",..." if c["ext"] else "")
         if k == "str":
             s = self.size(t["sz"])
@@ -73,10 +75,11 @@ class Gen:
         """text of a structured type's definition"""
         k = t["k"]
         if k == "enum":
-            items = ["v%d" % i for i in range(t["nroot"])]
+            num = (lambda i: "(%d)" % t["nums"][i]) if "nums" in t else (lambda i: "")
+            items = ["v%d%s" % (i, num(i)) for i in range(t["nroot"])]
             if t["ext"]:
                 items.append("...")
-            items += ["v%d" % i for i in range(t["nroot"], t["nroot"] + t["nadd"])]
+            items += ["v%d%s" % (i, num(i)) for i in range(t["nroot"], t["nroot"] + t["nadd"])]
             return "ENUMERATED { %s }" % ", ".join(items)
         if k == "choice":
             items = []
